@@ -184,6 +184,40 @@ func scenTiming(out *scenOut, r *rng, thorough bool) {
 		}(i)
 	}
 	wg.Wait()
+	// a command is for one firing: running the same command value again must not
+	// deliver a second message; and the time reported is the time the timer
+	// fired (armed at creation), however late the command is run
+	for _, every := range []bool{false, true} {
+		d := 40 * time.Millisecond
+		var calls int32
+		fn := func(t time.Time) tea.Msg { atomic.AddInt32(&calls, 1); return t }
+		before := time.Now()
+		var cmd tea.Cmd
+		kind := "tick"
+		if every {
+			cmd, kind = tea.Every(d, fn), "every"
+		} else {
+			cmd = tea.Tick(d, fn)
+		}
+		time.Sleep(400 * time.Millisecond) // run it long after it fired
+		msg := cmd()
+		in := fmt.Sprintf("%s d=40ms, run 400ms after creation, then run a second time", kind)
+		out.record(kind+"/late+twice", in)
+		if ts, ok := msg.(time.Time); ok {
+			if ts.Sub(before) > d+d+150*time.Millisecond {
+				out.fail(finding{Property: "C20", Class: "new", What: "the time reported is not the time the timer fired (armed at creation)", Input: in,
+					Expected: "about creation + " + d.String(), Observed: "creation + " + ts.Sub(before).String()})
+			}
+		}
+		second := make(chan struct{})
+		go func() { cmd(); close(second) }()
+		select {
+		case <-second:
+			out.fail(finding{Property: "C20", Class: "new", What: "running the same command a second time delivered a second message", Input: in,
+				Expected: "exactly one message per command", Observed: fmt.Sprintf("callback ran %d times", atomic.LoadInt32(&calls))})
+		case <-time.After(200 * time.Millisecond):
+		}
+	}
 }
 
 // `fps` stream: the frame interval newRenderer computes for a requested fps.
